@@ -93,4 +93,12 @@ CHECKS["C20"] = dict(
            dict(name="routermetrics", run="^TestRouterMetrics$", quick=300, thorough=8000, shards_thorough=4)],
 )
 
+CHECKS["C15"] = dict(
+    pkg="c15", race=False, level="exploration", timeout_quick=600, timeout_thorough=2400,
+    technique="model-based property testing (rapid) of CQRS buses and processors in a running Router over scripted Pub/Subs: bus Publish round-trip, invoked handler list and settlement against a dispatch model",
+    level_text="Generated registries (command / event / event-group processors, JSON and Protobuf marshalers, three name generators, both flags) and message streams (values sent through the real bus incl. zero values, types without handler, malformed payloads, foreign messages, per-delivery failing handlers) are executed in a real Router; the bus Publish and, per delivery, the ordered list of invoked handlers with their values, the original message in the context and the settlement are compared with the model.",
+    level_note="Trusted: the dispatch model in c15_test.go, scripted Pub/Subs. The type family is the harness' own JSON structs and four well-known protobuf types.",
+    steps=[dict(name="dispatch", run="^TestCQRSDispatch$", quick=1200, thorough=40000, shards_thorough=16)],
+)
+
 NOT_APPLICABLE = {}
